@@ -121,11 +121,26 @@ def parseWithMetadata (s : Bytes) : Except Err (Bytes × Bytes) :=
 
 /-! ## Transport: context, HTTP header, gRPC metadata -/
 
-/-- A context carries at most one org id; `none` = no value under the context key. -/
-abbrev Ctx := Option Bytes
+/-- the context keys of `user/id.go`. -/
+inductive CKey
+  | org | user
+  deriving DecidableEq, Repr
 
+/-- A `context.Context` as its chain of `context.WithValue` bindings, innermost (latest) first;
+`ctx.Value(key)` finds the innermost binding of the key. -/
+abbrev Ctx := List (CKey × Bytes)
+
+def Ctx.value (c : Ctx) (k : CKey) : Option Bytes :=
+  match c with
+  | [] => none
+  | (k', v) :: r => if k' = k then some v else Ctx.value r k
+
+/-- `InjectOrgID`: a derived context; the parent's bindings stay underneath. -/
+def injectOrgID (c : Ctx) (o : Bytes) : Ctx := (.org, o) :: c
+
+/-- `ExtractOrgID`. -/
 def extractOrgID (c : Ctx) : Except Err Bytes :=
-  match c with | none => .error .noOrgID | some o => .ok o
+  match c.value .org with | none => .error .noOrgID | some o => .ok o
 
 /-- `InjectOrgIDIntoHTTPRequest`: `hdr = []` models an absent (or empty) header. Returns new header. -/
 def injectHTTP (c : Ctx) (hdr : Bytes) : Except Err Bytes :=
@@ -134,10 +149,10 @@ def injectHTTP (c : Ctx) (hdr : Bytes) : Except Err Bytes :=
   | .ok o => if hdr ≠ [] ∧ hdr ≠ o then .error .differentOrg else .ok o
 
 /-- `ExtractOrgIDFromHTTPRequest`: `recv` is the context the receiving request already carries
-(it may hold a stale identifier of the receiver); the code derives the result from it only as the
-parent of the new context, so the extracted identifier is the header's. -/
-def extractHTTP (_recv : Ctx) (hdr : Bytes) : Except Err Ctx :=
-  if hdr = [] then .error .noOrgID else .ok (some hdr)
+(`r.Context()`; it may hold a stale identifier of the receiver and other values); the new context
+is derived from it: `InjectOrgID(r.Context(), orgID)`. -/
+def extractHTTP (recv : Ctx) (hdr : Bytes) : Except Err Ctx :=
+  if hdr = [] then .error .noOrgID else .ok (injectOrgID recv hdr)
 
 /-- `InjectIntoGRPCRequest`: `md = none` when the key is absent from outgoing metadata. -/
 def injectGRPC (c : Ctx) (md : Option (List Bytes)) : Except Err (List Bytes) :=
@@ -149,12 +164,23 @@ def injectGRPC (c : Ctx) (md : Option (List Bytes)) : Except Err (List Bytes) :=
     | some [x] => if x ≠ o then .error .differentOrg else .ok [x]
     | some _ => .error .tooMany
 
-/-- `ExtractFromGRPCRequest` on the incoming metadata values of the key; `recv` is the receiving
-context (possibly already holding an identifier), which must not influence the result. -/
-def extractGRPC (_recv : Ctx) (vals : List Bytes) : Except Err Ctx :=
+/-- `ExtractFromGRPCRequest` on the incoming metadata values of the key; `recv` is the incoming
+context (possibly already holding an identifier), from which the new one is derived:
+`InjectOrgID(ctx, orgIDs[0])`. -/
+def extractGRPC (recv : Ctx) (vals : List Bytes) : Except Err Ctx :=
   match vals with
-  | [x] => .ok (some x)
+  | [x] => .ok (injectOrgID recv x)
   | _ => .error .noOrgID
+
+/-- `tenant.TenantID(ctx)` / `TenantIDs(ctx)` / `ExtractWithMetadata(ctx)`: the org id is taken from the context first. -/
+def resolveTenantID (c : Ctx) : Except Err Bytes :=
+  match extractOrgID c with | .error e => .error e | .ok o => tenantID o
+
+def resolveTenantIDs (c : Ctx) : Except Err (List Bytes) :=
+  match extractOrgID c with | .error e => .error e | .ok o => tenantIDs o
+
+def resolveWithMetadata (c : Ctx) : Except Err (Bytes × Bytes) :=
+  match extractOrgID c with | .error e => .error e | .ok o => parseWithMetadata o
 
 /-- One hop: the pre-existing header / metadata on the carrier and the context found on the
 receiving side are part of the hop. -/
@@ -176,5 +202,12 @@ def chain (c : Ctx) : List Hop → Nat → Except (Err × Nat) Ctx
   | h :: hs, i => match hop c h with
     | .error e => .error (e, i)
     | .ok c' => chain c' hs (i + 1)
+
+/-- nothing on the carrier conflicts with identifier `id`: no pre-existing header / metadata value,
+or the same one. An empty identifier cannot travel in an HTTP header (an empty header is an absent
+one). -/
+def hopClean (id : Bytes) : Hop → Bool
+  | .http ex _ => id != [] && (ex == [] || ex == id)
+  | .grpc ex _ => ex == none || ex == some [id]
 
 end C20
